@@ -362,10 +362,19 @@ func (w *world) buildIntrospection(over config.MechanismConfig) error {
 // --- generic authenticator with session_lifespan ----------------------------
 
 func (w *world) buildGeneric(over config.MechanismConfig) error {
-	// the session was issued an hour before it is first seen (issued_at), it ends R seconds after T0 (not_after)
+	// the session was issued an hour before it is first seen (issued_at; only named by the identity provider that writes
+	// seconds since the epoch), it ends R seconds after T0 (not_after)
 	sl := map[string]any{"active": "active", "not_after": "exp", "issued_at": "iat"}
+	// with a configured leeway the identity provider writes its times as text without a zone (UTC by the documentation of
+	// time.Parse; the process runs in a zone west of UTC, see run), else as seconds since the epoch
+	const zoneless = "2006-01-02 15:04:05"
+
+	stamp := func(t time.Time) any { return t.Unix() }
+
 	if w.cell.VLeeway != nil {
 		sl["validity_leeway"] = durStr(*w.cell.VLeeway)
+		sl["time_format"] = zoneless
+		stamp = func(t time.Time) any { return t.UTC().Format(zoneless) }
 	}
 
 	conf := map[string]any{
@@ -389,9 +398,13 @@ func (w *world) buildGeneric(over config.MechanismConfig) error {
 	}
 
 	w.tr.Handlers[hostIDP] = func(r *env.Recorded) (*http.Response, error) {
-		body := map[string]any{"active": true, "sub": "alice", "iat": env.T0.Add(-time.Hour).Unix()}
+		body := map[string]any{"active": true, "sub": "alice"}
+		if w.cell.VLeeway == nil {
+			body["iat"] = stamp(env.T0.Add(-time.Hour))
+		}
+
 		if e := w.absExpiry(); e != nil {
-			body["exp"] = e.Unix()
+			body["exp"] = stamp(*e)
 		}
 
 		return jsonReply(r, body, nil)
